@@ -1,9 +1,10 @@
 import A2Verif.Lemmas.FsProdosRenOp
 import A2Verif.Lemmas.FsProdosDelOp
+import A2Verif.Lemmas.FsProdosPutM
 /-!
 # Histories of operations on the volume directory refine the abstract specification
 
-`VOp`: `delete`, `rename`, `lock`, `unlock`, `retype` with the arguments of the API; `VOp.exec` runs one on a disk object and
+`VOp`: `put`, `delete`, `rename`, `lock`, `unlock`, `retype` with the arguments of the API; `VOp.exec` runs one on a disk object and
 takes the image (`get_img()`); `VOp.Root vol` says the path addresses the volume directory of the volume named `vol`
 (normal form `[vol, name]`).  `step_refines`: from an `SInv` state the result is an `SInv` state, the step is allowed by the
 abstract specification, the volume keeps its name.  `history_refines`: every history is a valid trace.
@@ -21,6 +22,8 @@ inductive VOp where
   | unlock (path : Bytes)
   /-- `newType = none`: a type string `FileType::from_str` refuses; `aux = none`: a sub-type `u16::from_str` refuses -/
   | retype (path : Bytes) (newType aux : Option Nat)
+  /-- `put(fimg)`; `time` is the packed time of the call -/
+  | put (f : FImg) (time : Bytes)
 
 def isOkR {α : Type} (r : R α) : Bool := match r with | .ok _ => true | .error _ => false
 
@@ -35,10 +38,13 @@ def RootPath (vol path : Bytes) : Prop := ∃ nm, normalizePath vol path = .ok [
 
 def VOp.path : VOp → Bytes
   | .delete p | .rename p _ | .lock p | .unlock p | .retype p _ _ => p
+  | .put f _ => f.fullPath
 
-/-- the operation addresses the volume directory of the volume named `vol` (and a type code is a byte) -/
+/-- the operation addresses the volume directory of the volume named `vol` (a type code is a byte; the arguments of `put`
+satisfy `PutArgs` and the file image has at most 256 chunk positions) -/
 def VOp.Root (vol : Bytes) (op : VOp) : Prop :=
-  RootPath vol op.path ∧ (∀ p t a, op = .retype p (some t) a → t < 256)
+  RootPath vol op.path ∧ (∀ p t a, op = .retype p (some t) a → t < 256) ∧
+  (∀ f t, op = .put f t → PutArgs f t ∧ f.end_ ≤ 256)
 
 /-- one operation followed by `get_img()` (source as repaired): did it report success, the disk object afterwards -/
 def VOp.exec (op : VOp) (d : Disk) : Bool × Disk :=
@@ -48,6 +54,7 @@ def VOp.exec (op : VOp) (d : Disk) : Bool × Disk :=
   | .lock p => (isOkR (Fs.Prodos.lock p d).1, (Fs.Prodos.lock p d).2.flush.2)
   | .unlock p => (isOkR (Fs.Prodos.unlock p d).1, (Fs.Prodos.unlock p d).2.flush.2)
   | .retype p t a => (isOkR (Fs.Prodos.retype p t a d).1, (Fs.Prodos.retype p t a d).2.flush.2)
+  | .put f t => (isOkR (Fs.Prodos.put f t repaired d).1, (Fs.Prodos.put f t repaired d).2.flush.2)
 
 /-- the operation of the abstract specification -/
 def VOp.abs (vol : Bytes) : VOp → FsOp
@@ -56,6 +63,7 @@ def VOp.abs (vol : Bytes) : VOp → FsOp
   | .lock p => .lock (nameOf vol p)
   | .unlock p => .unlock (nameOf vol p)
   | .retype p _ _ => .retype (nameOf vol p)
+  | .put f _ => .put (nameOf vol f.fullPath) f.chunks f.eof (f.fsType.getD 0 0) (f.aux.getD 0 0 + 256 * f.aux.getD 1 0)
 
 theorem nameOf_root {vol path nm : Bytes} (h : normalizePath vol path = .ok [vol, nm]) : nameOf vol path = upper nm := by
   unfold nameOf; rw [h]; rfl
@@ -94,7 +102,7 @@ theorem step_refines {d : Disk} (hs : SInv d) (op : VOp) (hroot : op.Root (volNa
     SInv (op.exec d).2 ∧
     stepOk pdParams (volOf d.raw) (op.abs (volName (hdrOf d.raw))) (op.exec d).1 (volOf (op.exec d).2.raw) = true ∧
     volName (hdrOf (op.exec d).2.raw) = volName (hdrOf d.raw) := by
-  obtain ⟨⟨nm, hnodes, hnm, hnv⟩, htb⟩ := hroot
+  obtain ⟨⟨nm, hnodes, hnm, hnv⟩, htb, hput⟩ := hroot
   cases op with
   | delete p =>
     simp only [VOp.path] at hnodes hnv
@@ -124,6 +132,12 @@ theorem step_refines {d : Disk} (hs : SInv d) (op : VOp) (hroot : op.Root (volNa
   | retype p t a =>
     simp only [VOp.path] at hnodes hnv
     have := exec_of_refines hs (retype_refines' hs p nm t a hnodes hnm (fun t' ht' => htb p t' a (by rw [ht'])))
+    simp only [VOp.exec, VOp.abs, nameOf_root hnodes]
+    exact this
+  | put f t =>
+    simp only [VOp.path] at hnodes hnv
+    obtain ⟨pa, h256⟩ := hput f t rfl
+    have := exec_of_refines hs (put_refines' hs f t nm pa h256 hnodes hnm)
     simp only [VOp.exec, VOp.abs, nameOf_root hnodes]
     exact this
 
